@@ -49,6 +49,7 @@ type bufTracker struct {
 	layout int
 	pad    int
 	arenas [][]byte
+	lastCall [][]byte // the arenas handed out during the call just checked
 	pend   []pendBuf
 	scan   []byte
 }
@@ -60,21 +61,30 @@ func (b *bufTracker) mk(k []byte) []byte {
 	var arena, key []byte
 	switch b.layout {
 	case laySpare:
-		pad := b.pad
+		pad, fill := b.pad&0xF, b.pad>>4
 		if pad <= 0 {
 			pad = 3
 		}
 		arena = make([]byte, len(k)+pad)
 		copy(arena, k)
 		for i := len(k); i < len(arena); i++ {
-			arena[i] = 0xA5 ^ byte(i*7)
+			switch fill {
+			case 1:
+				arena[i] = 0x00 // what make() leaves behind a short key
+			case 2:
+				arena[i] = 0xFF
+			default:
+				arena[i] = 0xA5 ^ byte(i*7)
+			}
 		}
 		key = arena[:len(k)]
 	case layScan:
 		if cap(b.scan) < len(k)+8 {
 			ns := make([]byte, 64+2*len(k))
-			for i := range ns {
-				ns[i] = 0xC3 ^ byte(i)
+			if b.pad>>4 != 1 {
+				for i := range ns {
+					ns[i] = 0xC3 ^ byte(i)
+				}
 			}
 			b.scan = ns
 		}
@@ -98,6 +108,10 @@ func (b *bufTracker) mk(k []byte) []byte {
 // check compares every buffer handed to the tree during the last call with its
 // snapshot, over its whole capacity.
 func (b *bufTracker) check() error {
+	b.lastCall = b.lastCall[:0]
+	for _, p := range b.pend {
+		b.lastCall = append(b.lastCall, p.arena)
+	}
 	defer func() { b.pend = b.pend[:0] }()
 	for _, p := range b.pend {
 		if !bytes.Equal(p.arena, p.snap) {
@@ -387,8 +401,22 @@ func collBytesDrv[V any](coll string, vo valOps[V]) TreeAPI {
 }
 
 func collRunesDrv[V any](vo valOps[V]) TreeAPI {
-	return &drv[[]rune, V]{t: art.NewCollationSortedTree[[]rune, V](), vo: vo,
-		mk: func(b []byte) []rune { return []rune(string(b)) },
+	// the caller-buffer layouts for rune keys: fresh slice, or one rune buffer
+	// reused for successive keys (layScan)
+	bt := &bufTracker{}
+	var scan []rune
+	return &drv[[]rune, V]{t: art.NewCollationSortedTree[[]rune, V](), vo: vo, buf: bt,
+		mk: func(b []byte) []rune {
+			rs := []rune(string(b))
+			if bt.layout == layScan && !bt.noTrack {
+				if cap(scan) < len(rs)+4 {
+					scan = make([]rune, 32+2*len(rs))
+				}
+				copy(scan, rs)
+				return scan[:len(rs)]
+			}
+			return rs
+		},
 		un: func(k []rune) []byte { return []byte(string(k)) }}
 }
 
